@@ -22,6 +22,7 @@ Lit(c) == [k |-> "lit", c |-> c]
 Star   == [k |-> "star", c |-> ""]
 GS     == [k |-> "gs", c |-> ""]
 GSL    == [k |-> "gsl", c |-> ""]
+Any1   == [k |-> "any1", c |-> ""]          \* exactly one character (the dep5 "?" wildcard; REUSE.toml has none)
 
 -----------------------------------------------------------------------------------
 (* R: tokeniser.  A backslash makes the next character literal; a run of two or    *)
@@ -79,6 +80,7 @@ Step(its, S, c) ==
               ELSE CASE its[p + 1].k = "lit"  -> IF its[p + 1].c = c THEN {2 * (p + 1)} ELSE {}
                      [] its[p + 1].k = "star" -> IF c # "/" THEN {s} ELSE {}
                      [] its[p + 1].k = "gs"   -> {s}
+                     [] its[p + 1].k = "any1" -> {2 * (p + 1)}
                      [] OTHER                  -> {}
               : s \in S })
 
